@@ -23,7 +23,8 @@ def reset_fields(case, rsidx, T=None, strictread=False):
             "linenoopt": bool(cfg.get("yylineno", True)) and cfg.get("yylineno") != "no",
             "bolneeded": any(r["bol"] for r in case.src["rules"]),
             "rejectmode": bool(T["reject"]) if T else bool(cfg.get("reject")), "strictread": strictread,
-            "reentrant": cfg.get("flavour") in ("r", "c99"), "userwrap": bool(cfg.get("userwrap"))}
+            "reentrant": cfg.get("flavour") in ("r", "c99"), "userwrap": bool(cfg.get("userwrap")),
+            "failalloc": 0, "stdio": not cfg.get("userread", True), "yylmax": cfg.get("yylmax") or 8192}
 
 
 def gen_script(rng, case, maxops=24, p_op=0.5):
@@ -97,10 +98,12 @@ ENV = dict(ASAN_OPTIONS="detect_leaks=1:abort_on_error=0:exitcode=99",
 def job_line(job):
     files = [job["input"]] + list(job.get("files", []))
     rj = json.dumps(dict(job["reset"], sched=",".join(map(str, job["sched"])), ops=ops_csv(job["ops"]),
-                         initsc=job.get("initsc", 0), outs=ops_csv(job.get("outs", [])), wraps=ops_csv(job.get("wraps", []))))[1:-1]
+                         initsc=job.get("initsc", 0), outs=ops_csv(job.get("outs", [])), wraps=ops_csv(job.get("wraps", [])),
+                         failalloc=job.get("failalloc", 0), readfault=job.get("readfault", "")))[1:-1]
     return "\t".join([rj, ";".join(f.hex() for f in files), ",".join(map(str, job["sched"])), ops_csv(job["ops"]),
                       str(job.get("bufsize", 0)), str(job.get("initsc", 0)),
-                      ops_csv(job.get("outs", [])), ops_csv(job.get("wraps", []))]) + "\n"
+                      ops_csv(job.get("outs", [])), ops_csv(job.get("wraps", [])),
+                      str(job.get("failalloc", 0)), job.get("readfault", "")]) + "\n"
 
 
 def count_resets(tracefile):
